@@ -10,7 +10,7 @@ ATOMISTIC = {
     'TRI': '[$]CC[$][$]', 'QUA': '[$]C([$])([$])C', 'SUR': '[$]C[$][$][>][<]', 'DIR': '[>]C[>]C[<]', 'SQ': '[!]CC[!]',
     'SQ2': 'C[!]C[$]', 'PY': '[$]c1ccncc1', 'SO': '[$]CS(=O)(=O)C[$]', 'PH': '[$]OP(=O)(O)O[$]', 'CL': '[$]CCl',
     'MIX': '[$]C[>]C[<][$]', 'DBL': 'C=[$]C[$]', 'ARO': '[$]c1ccc([$])cc1', 'ORD': '[$]=C[$]', 'NA': '[$][O-].[Na+]',
-    'WT': '[$][C;0.5]([H;0.1])[$]', 'ONE': '[$][C;0.25;lab=abc][$]', 'W0': '[$][C;0]C[$]', 'W1': '[>][N;w=0]C[C;w=0.5][<]', 'W2': '[$]C[O;0;x=R]', 'ON2': '[>][N;2;x=S][<]', 'ZER': 'C.[$]C[$]', 'ZE2': '[$].CC[$][$]', 'CH': '[<]C[C;x=R][>](F)Cl',
+    'WT': '[$][C;0.5]([H;0.1])[$]', 'ONE': '[$][C;0.25;lab=abc][$]', 'W0': '[$][C;0]C[$]', 'WH': '[$]C([H;0])[O;0.5][$]', 'WG': '[>][C;2]([H;w=0;k=ab])([H;0.3])[<]', 'W1': '[>][N;w=0]C[C;w=0.5][<]', 'W2': '[$]C[O;0;x=R]', 'ON2': '[>][N;2;x=S][<]', 'ZER': 'C.[$]C[$]', 'ZE2': '[$].CC[$][$]', 'CH': '[<]C[C;x=R][>](F)Cl',
 }
 COARSE = {
     'CA': '[>][#X][#Y][<]', 'CB': '[$][#P]1[#Q][#R]1[$]', 'CC': '[$][#S][$][$]', 'CD': '[>][#T]=[#U][<][$]',
@@ -18,11 +18,14 @@ COARSE = {
 }
 
 
-def random_case(rng, coarse=None, max_nodes=10):
+def random_case(rng, coarse=None, max_nodes=10, prefer=()):
     coarse = rng.random() < 0.25 if coarse is None else coarse
     lib = COARSE if coarse else ATOMISTIC
     k = rng.randint(1, 4)
     names = rng.sample(sorted(lib), k)
+    if prefer and not coarse:
+        names[0] = rng.choice([p for p in prefer if p in lib])
+        names = list(dict.fromkeys(names))
     n = rng.randint(1, max_nodes)
     ast = G.random_ast(rng, n, max_depth=2, p_branch=rng.choice([0.0, 0.3]), p_bond=rng.choice([0.0, 0.2]),
                        n_rings=rng.choice([0, 0, 1]), p_mult_node=rng.choice([0.0, 0.3]), names=names, p_trailing_branch=rng.choice([0, 0.2]),
